@@ -179,13 +179,17 @@ where
 
     fn size(&self) -> usize {
         let mut iter = self.bytes_iter();
-        let last_payload = match (&mut iter).map(Result::unwrap).last() {
-            Some(payload) => payload,
-            None => return Self::OFFSET_SIZE,
-        };
-        match iter.data {
-            Some(_) => iter.pos + Self::OFFSET_SIZE,
-            None => iter.pos + ceil_mul(T::from_bytes(last_payload).unwrap().size(), Self::ALIGN),
+        // Payload of a trailing item that is still marked with `L::MAX` (it has no stored extent).
+        let mut open_payload = None;
+        while let Some(payload) = iter.next() {
+            let payload = payload.unwrap();
+            open_payload = if iter.data.is_none() { Some(payload) } else { None };
+        }
+        match open_payload {
+            // `iter.pos` is the position of the open item's slot.
+            Some(payload) => iter.pos + Self::OFFSET_SIZE + ceil_mul(T::from_bytes(payload).unwrap().size(), Self::ALIGN),
+            // `iter.pos` is the position of the zero terminator.
+            None => iter.pos + Self::OFFSET_SIZE,
         }
     }
 }
